@@ -36,6 +36,20 @@ type ctxTally struct {
 	votes     map[ucon.VoteType]map[common.Address]*entry
 	own       map[ucon.VoteType]common.Hash // kinds the validator under test voted in this context
 	committed bool
+	peak      map[peakKey]uint64   // highest tally a (kind, hash) ever had in this context
+	taint     map[peakKey]map[common.Address]uint32 // unverifiable seat counts the engine accepted while it was ahead of its voter
+	lost      map[common.Hash]bool // commits announced on a quorum that had been reached and was lost again
+}
+
+type peakKey struct {
+	kind ucon.VoteType
+	hash common.Hash
+}
+
+// packedSets is what a CommitEvent carried (the decision snapshot): voter index -> seat count.
+type packedSets struct {
+	vk        ctxKey
+	pre, cert map[uint32]uint32
 }
 
 type addRec struct {
@@ -49,10 +63,40 @@ type oracle struct {
 	ctxs    map[ctxKey]*ctxTally
 	curStep uint32
 	in      *voteTruth
+	inErr   *error // HandleMsg's result for `in` (valid when the stimulus has ended)
+	lenient *voteTruth
 	added   []addRec
+	packed  map[common.Hash]*packedSets // last CommitEvent per block
 }
 
-func newOracle(w *world) *oracle { return &oracle{w: w, ctxs: map[ctxKey]*ctxTally{}} }
+func newOracle(w *world) *oracle {
+	return &oracle{w: w, ctxs: map[ctxKey]*ctxTally{}, packed: map[common.Hash]*packedSets{}}
+}
+
+const classLostQuorum = "certificate-commit-on-lost-quorum"
+
+// classLenient: escalations explained by seat counts that do not verify but were accepted while
+// the engine (Server.currentRound/roundIndex) was already ahead of its Voter's context
+// (sortition_verifier.go:206 forgives failed sortition checks of votes older than the ENGINE's context).
+const classLenient = "unverified-vote-counted-while-engine-ahead"
+
+func (o *oracle) taintWeight(vk ctxKey, kind ucon.VoteType, hash common.Hash) (s uint64) {
+	if ct := o.ctxs[vk]; ct != nil {
+		for _, w := range ct.taint[peakKey{kind, hash}] {
+			s += uint64(w)
+		}
+	}
+	return
+}
+
+// classify picks the class of a "tally below quorum" violation: the specific one if the seat
+// counts accepted through the leniency window explain the engine's escalation.
+func (o *oracle) classify(generic string, vk ctxKey, kind ucon.VoteType, hash common.Hash, have, q uint64) string {
+	if tw := o.taintWeight(vk, kind, hash); tw > 0 && have+tw >= q {
+		return classLenient
+	}
+	return generic
+}
 
 func (o *oracle) qPos() uint64  { return o.w.cfg.T * 685 / 1000 }
 func (o *oracle) qCert() uint64 { return o.w.cfg.Tcert * 585 / 1000 }
@@ -60,7 +104,8 @@ func (o *oracle) qCert() uint64 { return o.w.cfg.Tcert * 585 / 1000 }
 func (o *oracle) ctx(ck ctxKey) *ctxTally {
 	ct := o.ctxs[ck]
 	if ct == nil {
-		ct = &ctxTally{cert: isCertRound(ck.round), votes: map[ucon.VoteType]map[common.Address]*entry{}, own: map[ucon.VoteType]common.Hash{}}
+		ct = &ctxTally{cert: isCertRound(ck.round), votes: map[ucon.VoteType]map[common.Address]*entry{}, own: map[ucon.VoteType]common.Hash{},
+			peak: map[peakKey]uint64{}, lost: map[common.Hash]bool{}, taint: map[peakKey]map[common.Address]uint32{}}
 		o.ctxs[ck] = ct
 	}
 	return ct
@@ -103,10 +148,17 @@ func (o *oracle) quorumFor(kind ucon.VoteType) uint64 {
 // (for header updates).
 func (o *oracle) applyVote(t *voteTruth, cached bool) string {
 	w := o.w
+	vk := ctxKey{t.spec.round, t.spec.index}
+	o.lenient = nil
 	if !t.countable() {
+		// a vote that is fine except that its seat count does not verify, for the context the
+		// voter is still in while the engine has moved on: remembered for classification only
+		if !cached && t.frameSigner == t.spec.signer && t.eligible && t.sigOK && t.tsOK && t.verified == 0 && t.claimed > 0 &&
+			w.voterSet && w.voterCtx == vk && w.engineCtx() != vk {
+			o.lenient = t
+		}
 		return "rejected"
 	}
-	vk := ctxKey{t.spec.round, t.spec.index}
 	status := "future"
 	switch {
 	case cached:
@@ -153,6 +205,7 @@ func (o *oracle) count(vk ctxKey, t *voteTruth) string {
 	if e == nil {
 		m[addr] = &entry{hash: t.spec.hash, weight: t.verified}
 		o.added = append(o.added, addRec{vk, kind, t.spec.hash})
+		o.notePeak(vk, kind, t.spec.hash)
 		return "counted"
 	}
 	if e.hash == t.spec.hash {
@@ -172,7 +225,32 @@ func (o *oracle) count(vk ctxKey, t *voteTruth) string {
 	return "equivocation"
 }
 
-func (o *oracle) beginStimulus(in *voteTruth) { o.in = in }
+func (o *oracle) notePeak(vk ctxKey, kind ucon.VoteType, hash common.Hash) {
+	ct := o.ctx(vk)
+	if have := o.weight(vk, kind, hash); have > ct.peak[peakKey{kind, hash}] {
+		ct.peak[peakKey{kind, hash}] = have
+	}
+}
+
+func (o *oracle) beginStimulus(in *voteTruth) {
+	o.in = in
+	if t := o.lenient; t != nil && t == in && o.inErr != nil && *o.inErr == nil {
+		vk := ctxKey{t.spec.round, t.spec.index}
+		ct := o.ctx(vk)
+		if e := ct.votes[t.spec.kind][t.spec.signer.Addr]; e == nil {
+			pk := peakKey{t.spec.kind, t.spec.hash}
+			if ct.taint[pk] == nil {
+				ct.taint[pk] = map[common.Address]uint32{}
+			}
+			if _, ok := ct.taint[pk][t.spec.signer.Addr]; !ok {
+				ct.taint[pk][t.spec.signer.Addr] = t.claimed
+				o.w.r.Probe("unverifiable vote accepted while the engine is ahead of its voter")
+				o.w.r.Logf("   (engine in %s, voter in %s: vote #%d with unverifiable seat count %d was not rejected)", o.w.engineCtx(), vk, t.id, t.claimed)
+			}
+		}
+	}
+	o.lenient = nil
+}
 
 // ownVote: the validator under test signed a vote (SendMessageEvent).
 func (o *oracle) ownVote(kind ucon.VoteType, payload []byte) {
@@ -198,6 +276,7 @@ func (o *oracle) ownVote(kind ucon.VoteType, payload []byte) {
 	if e := m[w.me.Addr]; e == nil {
 		m[w.me.Addr] = &entry{hash: v.BlockHash, weight: verified}
 		o.added = append(o.added, addRec{vk, kind, v.BlockHash})
+		o.notePeak(vk, kind, v.BlockHash)
 	} else if e.hash != v.BlockHash && kind != ucon.NextIndex {
 		e.equivocated = true // C02's business; here it only means: contributes nothing
 	}
@@ -213,14 +292,14 @@ func (o *oracle) ownVote(kind ucon.VoteType, payload []byte) {
 			r.Probe("tally exactly at quorum")
 		}
 		if have < q {
-			r.Report("precommit-without-counted-quorum", "own precommit for %s in %s: prevotes counted for that block weigh %d, quorum floor(%d*0.685) = %d | %s",
+			r.Report(o.classify("precommit-without-counted-quorum", vk, ucon.Prevote, v.BlockHash, have, q), "own precommit for %s in %s: prevotes counted for that block weigh %d, quorum floor(%d*0.685) = %d | %s",
 				hname(v.BlockHash), vk, have, w.cfg.T, q, o.dump(vk, ucon.Prevote))
 		}
 	case ucon.Certificate:
 		r.Probe("own certificate vote")
 		have := o.weight(vk, ucon.Precommit, v.BlockHash)
 		if have < q {
-			r.Report("certificate-vote-without-counted-quorum", "own certificate vote for %s in %s: precommits counted for that block weigh %d, quorum %d | %s",
+			r.Report(o.classify("certificate-vote-without-counted-quorum", vk, ucon.Precommit, v.BlockHash, have, q), "own certificate vote for %s in %s: precommits counted for that block weigh %d, quorum %d | %s",
 				hname(v.BlockHash), vk, have, q, o.dump(vk, ucon.Precommit))
 		}
 	}
@@ -231,11 +310,16 @@ func (o *oracle) ownVote(kind ucon.VoteType, payload []byte) {
 func (o *oracle) checkSet(what string, vk ctxKey, kind ucon.VoteType, hash common.Hash, addrs []common.Address, votes []*ucon.SingleVote) {
 	r := o.w.r
 	ct := o.ctx(vk)
+	set := o.w.chain.lookBackFor(vk.round, kind).set
 	seenIdx := map[uint32]bool{}
 	seenAddr := map[common.Address]bool{}
 	var sum uint64
 	for i, a := range addrs {
 		sv := votes[i]
+		if v, ok := set.vals.GetByIndex(int(sv.VoterIdx)); !ok || v.MainAddress() != a {
+			r.Report("commit-packs-uncounted-vote", "%s %s set for %s in %s: vote filed under %s carries voter index %d, which is not that validator's", what, kindName(kind), hname(hash), vk, o.name(a), sv.VoterIdx)
+			continue
+		}
 		if seenAddr[a] || seenIdx[sv.VoterIdx] {
 			r.Report("commit-packs-duplicate-signer", "%s %s set for %s in %s lists signer %s (index %d) twice", what, kindName(kind), hname(hash), vk, o.name(a), sv.VoterIdx)
 			continue
@@ -243,6 +327,9 @@ func (o *oracle) checkSet(what string, vk ctxKey, kind ucon.VoteType, hash commo
 		seenAddr[a], seenIdx[sv.VoterIdx] = true, true
 		e := ct.votes[kind][a]
 		switch {
+		case e == nil && ct.taint[peakKey{kind, hash}][a] == sv.Votes && sv.Votes > 0:
+			r.Report(classLenient, "%s %s set for %s in %s contains the vote of %s with the unverifiable seat count %d, accepted while the engine was ahead of its voter | %s",
+				what, kindName(kind), hname(hash), vk, o.name(a), sv.Votes, o.dump(vk, kind))
 		case e == nil || e.hash != hash:
 			r.Report("commit-packs-uncounted-vote", "%s %s set for %s in %s contains a vote of %s (claimed weight %d) that was never counted for this block | %s",
 				what, kindName(kind), hname(hash), vk, o.name(a), sv.Votes, o.dump(vk, kind))
@@ -255,8 +342,8 @@ func (o *oracle) checkSet(what string, vk ctxKey, kind ucon.VoteType, hash commo
 			sum += uint64(e.weight)
 		}
 	}
-	if q := o.quorumFor(kind); sum < q {
-		r.Report("commit-set-below-quorum", "%s %s set for %s in %s: legitimately packed weight %d < quorum %d | %s", what, kindName(kind), hname(hash), vk, sum, q, o.dump(vk, kind))
+	if q := o.quorumFor(kind); sum < q && !ct.lost[hash] {
+		r.Report(o.classify("commit-set-below-quorum", vk, kind, hash, sum, q), "%s %s set for %s in %s: legitimately packed weight %d < quorum %d | %s", what, kindName(kind), hname(hash), vk, sum, q, o.dump(vk, kind))
 	}
 }
 
@@ -312,9 +399,22 @@ func (o *oracle) commitEvent(e ucon.CommitEvent) {
 	if !w.voterSet || vk != w.voterCtx {
 		r.Report("commit-outside-context", "commit for %s while the voter is in %s", vk, w.voterCtx)
 	}
-	if pc < q {
-		r.Report("commit-without-counted-quorum", "commit of %s in %s: precommits counted for that block weigh %d, quorum floor(%d*0.685) = %d | %s", hname(hash), vk, pc, w.cfg.T, q, o.dump(vk, ucon.Precommit))
+	if pk := ct.peak[peakKey{ucon.Precommit, hash}]; pc < q && ct.cert && pk >= q {
+		// the precommit quorum had been reached (and remembered) but equivocators were removed since
+		ct.lost[hash] = true
+		r.Report(classLostQuorum, "certificate context %s: commit of %s announced when the certificate quorum arrived, although the precommits counted for the block had fallen from %d to %d (quorum floor(%d*0.685) = %d) after an equivocator's weight was removed | %s",
+			vk, hname(hash), pk, pc, w.cfg.T, q, o.dump(vk, ucon.Precommit))
+	} else if pc < q {
+		r.Report(o.classify("commit-without-counted-quorum", vk, ucon.Precommit, hash, pc, q), "commit of %s in %s: precommits counted for that block weigh %d, quorum floor(%d*0.685) = %d | %s", hname(hash), vk, pc, w.cfg.T, q, o.dump(vk, ucon.Precommit))
 	}
+	ps := &packedSets{vk: vk, pre: map[uint32]uint32{}, cert: map[uint32]uint32{}}
+	for _, sv := range e.ChamberPrecommits {
+		ps.pre[sv.VoterIdx] = sv.Votes
+	}
+	for _, sv := range e.ChamberCerts {
+		ps.cert[sv.VoterIdx] = sv.Votes
+	}
+	o.packed[hash] = ps
 	as, vs := splitVotes(e.ChamberPrecommits)
 	o.checkSet("CommitEvent", vk, ucon.Precommit, hash, as, vs)
 	if len(e.HousePrecommits) > 0 {
@@ -326,8 +426,12 @@ func (o *oracle) commitEvent(e ucon.CommitEvent) {
 		if cw == qc {
 			r.Probe("certificate tally exactly at quorum")
 		}
-		if cw < qc {
-			r.Report("commit-without-certificate-quorum", "commit of %s in certificate context %s: certificate votes counted for that block weigh %d, quorum floor(%d*0.585) = %d | %s", hname(hash), vk, cw, w.cfg.Tcert, qc, o.dump(vk, ucon.Certificate))
+		if pk := ct.peak[peakKey{ucon.Certificate, hash}]; cw < qc && pk >= qc {
+			ct.lost[hash] = true
+			r.Report(classLostQuorum, "certificate context %s: commit of %s announced when the precommit quorum arrived, although the certificate votes counted for the block had fallen from %d to %d (quorum floor(%d*0.585) = %d) after an equivocator's weight was removed | %s",
+				vk, hname(hash), pk, cw, w.cfg.Tcert, qc, o.dump(vk, ucon.Certificate))
+		} else if cw < qc {
+			r.Report(o.classify("commit-without-certificate-quorum", vk, ucon.Certificate, hash, cw, qc), "commit of %s in certificate context %s: certificate votes counted for that block weigh %d, quorum floor(%d*0.585) = %d | %s", hname(hash), vk, cw, w.cfg.Tcert, qc, o.dump(vk, ucon.Certificate))
 		}
 		as, vs := splitVotes(e.ChamberCerts)
 		o.checkSet("CommitEvent", vk, ucon.Certificate, hash, as, vs)
@@ -346,7 +450,7 @@ func (o *oracle) indexChange(e ucon.RoundIndexChangeEvent) {
 	r.Probe("index change by votes")
 	r.FP("index-change")
 	if have < q {
-		r.Report("index-change-without-counted-quorum", "round-index change of %s for %s: next-index votes counted for that hash weigh %d, quorum %d | %s", vk, hname(e.BlockHash), have, q, o.dump(vk, ucon.NextIndex))
+		r.Report(o.classify("index-change-without-counted-quorum", vk, ucon.NextIndex, e.BlockHash, have, q), "round-index change of %s for %s: next-index votes counted for that hash weigh %d, quorum %d | %s", vk, hname(e.BlockHash), have, q, o.dump(vk, ucon.NextIndex))
 	}
 }
 
@@ -407,6 +511,10 @@ func (o *oracle) verifySealed(block *types.Block, what string) error {
 		cls := "commit-does-not-verify"
 		if what == "update" {
 			cls = "updated-header-does-not-verify"
+		} else if ps := o.packed[block.Hash()]; ps != nil && o.ctx(ps.vk).lost[block.Hash()] {
+			cls = classLostQuorum // the consequence of the commit already reported under this class
+		} else if ps != nil && (o.taintWeight(ps.vk, ucon.Precommit, block.Hash()) > 0 || o.taintWeight(ps.vk, ucon.Certificate, block.Hash()) > 0) {
+			cls = classLenient
 		}
 		r.Report(cls, "the header of block %d %s assembled by the engine (%s) is rejected by an independent verifier: %v", num, hname(block.Hash()), what, verr)
 	}
@@ -415,13 +523,19 @@ func (o *oracle) verifySealed(block *types.Block, what string) error {
 		if uv, e := ucon.ExtractUconValidators(h, params.LookBackPos); e != nil {
 			r.Report("commit-does-not-verify", "header.Validator of block %d does not decode: %v", num, e)
 		} else {
-			vk := ctxKey{num, uv.RoundIndex}
-			o.checkPacked("sealed header", vk, ucon.Precommit, block.Hash(), uv.ChamberCommitters)
-			if isCertRound(num) {
-				if uc, e := ucon.ExtractUconValidators(h, params.LookBackCert); e != nil {
+			ps := o.packed[block.Hash()]
+			if ps == nil || ps.vk != (ctxKey{num, uv.RoundIndex}) {
+				r.Report("sealed-header-differs-from-commit", "block %d %s sealed for round index %d without a matching CommitEvent", num, hname(block.Hash()), uv.RoundIndex)
+			} else {
+				o.checkPacked(ps.vk, "precommit", block.Hash(), uv.ChamberCommitters, ps.pre)
+				if len(uv.HouseCommitters) > 0 || len(uv.ChamberCerts) > 0 {
+					r.Report("sealed-header-differs-from-commit", "header.Validator of block %d carries House or certificate votes", num)
+				}
+				uc, e := ucon.ExtractUconValidators(h, params.LookBackCert)
+				if e != nil {
 					r.Report("commit-does-not-verify", "header.Certificate of block %d does not decode: %v", num, e)
 				} else {
-					o.checkPacked("sealed header", vk, ucon.Certificate, block.Hash(), uc.ChamberCerts)
+					o.checkPacked(ps.vk, "certificate", block.Hash(), uc.ChamberCerts, ps.cert)
 				}
 			}
 		}
@@ -429,20 +543,27 @@ func (o *oracle) verifySealed(block *types.Block, what string) error {
 	return verr
 }
 
-func (o *oracle) checkPacked(what string, vk ctxKey, kind ucon.VoteType, hash common.Hash, list []ucon.SingleVote) {
-	set := o.w.chain.lookBackFor(vk.round, kind).set
-	var as []common.Address
-	var vs []*ucon.SingleVote
-	for i := range list {
-		sv := &list[i]
-		v, ok := set.vals.GetByIndex(int(sv.VoterIdx))
-		if !ok {
-			o.w.r.Report("commit-packs-uncounted-vote", "%s %s set for %s in %s has voter index %d outside the validator set", what, kindName(kind), hname(hash), vk, sv.VoterIdx)
-			continue
+// checkPacked: what PackVotes put into the header must be exactly the decision snapshot of the
+// CommitEvent (which was checked against the tally when it was announced): same signers, same
+// seat counts, nobody twice.
+func (o *oracle) checkPacked(vk ctxKey, kind string, hash common.Hash, list []ucon.SingleVote, want map[uint32]uint32) {
+	r := o.w.r
+	seen := map[uint32]bool{}
+	for _, sv := range list {
+		votes, ok := want[sv.VoterIdx]
+		switch {
+		case seen[sv.VoterIdx]:
+			r.Report("commit-packs-duplicate-signer", "sealed header of %s (%s): %s set lists voter index %d twice", hname(hash), vk, kind, sv.VoterIdx)
+		case !ok:
+			r.Report("sealed-header-differs-from-commit", "sealed header of %s (%s): %s set contains voter index %d, which the CommitEvent did not carry", hname(hash), vk, kind, sv.VoterIdx)
+		case votes != sv.Votes:
+			r.Report("sealed-header-differs-from-commit", "sealed header of %s (%s): %s vote of index %d has weight %d, CommitEvent had %d", hname(hash), vk, kind, sv.VoterIdx, sv.Votes, votes)
 		}
-		as, vs = append(as, v.MainAddress()), append(vs, sv)
+		seen[sv.VoterIdx] = true
 	}
-	o.checkSet(what, vk, kind, hash, as, vs)
+	if len(seen) != len(want) {
+		r.Report("sealed-header-differs-from-commit", "sealed header of %s (%s): %s set has %d signers, CommitEvent had %d", hname(hash), vk, kind, len(seen), len(want))
+	}
 }
 
 // headerUpdated: the engine rewrote the vote set of a stored header (ucon.go:562).
